@@ -54,8 +54,8 @@ func vSetup(v6 bool) (d *udpDriver, cfg *UDPv4, sink *N.Sink, src *N.Source, min
 // address and port, IP identification, and - unless relaxed - source address and port. IHLs are concrete.
 func vGenuine4(p []byte, ihl, qihl int, pr []byte, loosen bool) bool {
 	o := ihl * 4
-	if len(p) < o+8+qihl*4+8 {
-		return false
+	if qihl < 5 || len(p) < o+8+qihl*4+8 {
+		return false // the quote does not hold an IPv4 header plus 8 transport bytes
 	}
 	q := p[o+8:]
 	u := q[qihl*4:]
